@@ -143,6 +143,9 @@ func TestVerifC14E2E(t *testing.T) {
 	base := vSeedEff()
 	for i := 0; i < n; i++ {
 		seed := (base*1000003 + int64(i)*7919) & 0x7fffffffffff
+		if v, err := strconv.ParseInt(os.Getenv("VERIF_SCENARIO_SEED"), 10, 64); err == nil {
+			seed = v // development: run one specific generated scenario
+		}
 		sc := vGenScenario(seed, "c14", maxN, false)
 		rn, err := vNewRunner(sc)
 		if err != nil {
@@ -217,6 +220,9 @@ func TestVerifC15Liveness(t *testing.T) {
 	base := vSeedEff()
 	for i := 0; i < n; i++ {
 		seed := (base*1000003 + int64(i)*7919 + 17) & 0x7fffffffffff
+		if v, err := strconv.ParseInt(os.Getenv("VERIF_SCENARIO_SEED"), 10, 64); err == nil {
+			seed = v // development: run one specific generated scenario
+		}
 		sc := vGenScenario(seed, "c15", maxN, slow > 0)
 		if sc.SlowQuota {
 			slow--
